@@ -11,8 +11,9 @@
                                      STARTTLS reply, or at connection start with tls_immediately=True);
                                      ('stall',) = never start the handshake, ('raw-stall', b'..') = send a
                                      fragment of a handshake record and go silent; default ('ok',) = handshake
-    'idle'                           consulted after an end-of-data reply was sent: ('raw-stall', b'..') = send these
-                                     bytes unasked on the now idle connection (e.g. half a 421 line), then silence
+    'idle' / 'after-ehlo'            consulted after an end-of-data reply / the EHLO-LHLO reply was sent:
+                                     ('raw-stall', b'..') = once the peer has consumed that reply, send these bytes
+                                     unasked as a segment of their own (e.g. half a 421 line), then silence
   tls_immediately=True               the connection starts with a TLS handshake (SMTPS-style next hop)
 
 deaf=True: a stalled connection does not read from its socket either (the default stall keeps reading and
@@ -58,6 +59,8 @@ class Downstream14(Downstream):
         Downstream.__init__(self, script, tls_context=tls_context, **kw)
         self.tls_immediately = tls_immediately
         self.stall_log = []
+        self._socks = {}
+        self.pushed_after_drain = None
         self.trickled = 0
         self._forced = None
 
@@ -125,17 +128,42 @@ class Downstream14(Downstream):
             return inner
         self._forced = a
         r = Downstream._send(self, f, c, ctx, stage, ok)
-        if stage.startswith('eod'):
-            # extra stage 'idle': what the next hop does, unasked, after answering the end of data
-            a2 = Downstream.action(self, ctx, 'idle')
+        extra = 'idle' if stage.startswith('eod') else 'after-ehlo' if stage == 'ehlo' else None
+        if extra:
+            # what the next hop does, unasked, after answering the end of data / the EHLO or LHLO
+            a2 = Downstream.action(self, ctx, extra)
             if a2[0] == 'raw-stall':
+                # as a segment of its own: only once the peer has consumed the reply just sent
+                self.pushed_after_drain = self._wait_drained(ctx['conn'])
                 f.write(a2[1])
                 f.flush()
-                self._begin_stall('idle', 'raw-stall')
+                self._begin_stall(extra, 'raw-stall')
                 self._silent(f)
         return r
 
+    def _wait_drained(self, conn, limit=0.2):
+        """Poll (0.5 ms) until the peer has read everything we sent (SIOCOUTQ == 0 on our end of the socketpair);
+        returns True if that was observed. Not possible over TLS / without the ioctl: falls back to a 3 ms pause."""
+        import time
+        import fcntl
+        import struct
+        import termios
+        sock = self._socks.get(conn)
+        t0 = time.monotonic()
+        try:
+            if sock is None or self.conns[conn].tls:
+                raise OSError('n/a')
+            while struct.unpack('i', fcntl.ioctl(sock.fileno(), termios.TIOCOUTQ, b'\0\0\0\0'))[0] > 0:
+                if time.monotonic() - t0 > limit:
+                    return False
+                gevent.sleep(0.0005)
+            return True
+        except (OSError, IOError, ValueError):
+            gevent.sleep(0.003)
+            return False
+
     def serve(self, sock, c):
+        self._socks[c.n] = sock
         if self.tls_immediately and self._real_tls is not None:
             try:
                 sock = self.tls_context.wrap_socket(sock, server_side=True)
